@@ -27,6 +27,17 @@ pub struct NameDec {
     pub backward_only: bool,
     /// offsets (in the message) at which each label of the name starts, in order
     pub label_offsets: Vec<usize>,
+    /// every pointer followed: (position of the pointer, its target), in order
+    pub pointers: Vec<(usize, usize)>,
+    /// labels read before the first pointer was followed
+    pub inplace: usize,
+}
+
+impl NameDec {
+    /// number of labels written in place (before the first pointer)
+    pub fn inplace_labels(&self) -> usize {
+        self.inplace
+    }
 }
 
 pub fn decode_name(msg: &[u8], off: usize) -> Result<NameDec, NameErr> {
@@ -38,6 +49,8 @@ pub fn decode_name(msg: &[u8], off: usize) -> Result<NameDec, NameErr> {
     let mut ptrs = 0usize;
     let mut backward_only = true;
     let mut visited: Vec<usize> = Vec::new();
+    let mut pointers: Vec<(usize, usize)> = Vec::new();
+    let mut inplace = usize::MAX;
     loop {
         if pos >= msg.len() {
             return Err(NameErr::Truncated);
@@ -74,6 +87,7 @@ pub fn decode_name(msg: &[u8], off: usize) -> Result<NameDec, NameErr> {
                 let target = (((b & 0x3f) as usize) << 8) | msg[pos + 1] as usize;
                 if next.is_none() {
                     next = Some(pos + 2);
+                    inplace = labels.len();
                 }
                 if target >= msg.len() {
                     return Err(NameErr::PtrOutside);
@@ -82,12 +96,16 @@ pub fn decode_name(msg: &[u8], off: usize) -> Result<NameDec, NameErr> {
                     backward_only = false;
                 }
                 ptrs += 1;
+                pointers.push((pos, target));
                 pos = target;
             }
             _ => return Err(NameErr::ReservedLabelType),
         }
     }
-    Ok(NameDec { name: RefName(labels), next: next.unwrap(), ptrs, backward_only, label_offsets })
+    if inplace == usize::MAX {
+        inplace = labels.len();
+    }
+    Ok(NameDec { name: RefName(labels), next: next.unwrap(), ptrs, backward_only, label_offsets, pointers, inplace })
 }
 
 #[derive(Debug, Clone)]
